@@ -219,6 +219,17 @@ func (x *Exec) callK(st *State, fr *Frame, ce *ast.CallExpr, k func(*State, []Te
 	fun := ast.Unparen(ce.Fun)
 	// conversions
 	if tv, ok := x.info.Types[fun]; ok && tv.IsType() {
+		if _, isPtr := types.Unalias(tv.Type).(*types.Pointer); isPtr {
+			// (*A)(unsafe.Pointer(uintptr(unsafe.Pointer(p)) + o)) kept in a variable: the
+			// pointer value carries its field location; dereferences go through fget/fput
+			if loc, ok := x.matchUnsafeConv(st, fr, ce); ok {
+				r := x.d.fresh("fieldptr", "Ref")
+				r.Ty = tv.Type
+				r.Loc = loc
+				k(st, []Term{r})
+				return
+			}
+		}
 		v := x.expr(st, fr, ce.Args[0])
 		k(st, []Term{x.convertTo(st, v, tv.Type, ce)})
 		return
@@ -1114,7 +1125,7 @@ func (x *Exec) ifaceCall(st *State, fr *Frame, ce *ast.CallExpr, in *types.Named
 		}
 	}
 	if pc == nil {
-		x.unsupported(ce, "call of interface method %s.%s without a contract", in.Obj().Name(), f.Name())
+		x.unsupported(ce, "call of interface method %s.%s (%s) without a contract", in.Obj().Name(), f.Name(), f.FullName())
 		return
 	}
 	x.nilCheck(st, recv, ce)
@@ -1252,15 +1263,18 @@ func (x *Exec) inlineFunc(st *State, fr *Frame, ce *ast.CallExpr, f *types.Func,
 	}
 	savedLoop, savedLit, savedCall := x.loopOrd, x.litOrd, x.callOrd
 	x.number(decl.Body)
-	nfr.ret = func(s2 *State, res []Term) {
-		x.loopOrd, x.litOrd, x.callOrd = savedLoop, savedLit, savedCall
-		restore()
-		k(s2, res)
-		x.pkg, x.info = pkg, pkg.Info
-	}
 	saveDefers := in.defers
 	in.defers = nil
-	_ = saveDefers
+	nfr.ret = func(s2 *State, res []Term) {
+		// the inlined function's own deferred calls run here; the caller's are put back
+		x.runDefers(s2, nfr, func(e *State) {
+			e.defers = append([]deferred(nil), saveDefers...)
+			x.loopOrd, x.litOrd, x.callOrd = savedLoop, savedLit, savedCall
+			restore()
+			k(e, res)
+			x.pkg, x.info = pkg, pkg.Info
+		})
+	}
 	x.block(in, nfr, decl.Body.List, func(s2 *State) {
 		if sig.Results().Len() > 0 {
 			return // falls off the end of a function with results: unreachable in valid Go
@@ -1631,6 +1645,13 @@ func (x *Exec) convertTo(st *State, v Term, to types.Type, n ast.Node) Term {
 	}
 	if v.S == "null" && v.Sort == "Ref" {
 		return x.zero(to)
+	}
+	// integer to float: an uninterpreted function (floating point is not reasoned about)
+	if v.Sort == "Int" && ts == "Float" {
+		x.d.fun("int_to_float", []string{"Int"}, "Float")
+		r := tApp("Float", "int_to_float", v)
+		r.Ty = to
+		return r
 	}
 	// numeric conversions between integer kinds: value preserved only if in range
 	if v.Sort == "Int" && ts == "Int" {
